@@ -1,4 +1,790 @@
-//! C17 — cmap subsetting: correspondence cases + oracles.
+//! C17 — cmap subsetting (klippa/src/cmap.rs): correspondence cases + oracles.
+//!
+//! A. unit level, through `klippa::verif_hooks::serialize_cmap4 / serialize_cmap12`: the format 4 / 12 subtable
+//!    writers on plain (code point, new gid) lists; bytes compared with the Lean model (`c17.cmap4`, `c17.cmap12`)
+//!    and read back with read-fonts (model independent oracle: lookup(cp) = gid for listed pairs, nothing for others).
+//! B. whole fonts, through `klippa::subset_font`: synthetic fonts whose glyph order is shuffled relative to the code
+//!    point order in controlled ways and corpus fonts, requests made of contiguous unicode blocks; every retained
+//!    Unicode subtable and skrifa's Charmap are compared with the original through the plan's glyph map.
+use super::{build_font, make_plan, Req, Syn, F_NOTDEF_OUTLINE, F_NO_HINTING, F_RETAIN_GIDS};
 use fv_harness::common::*;
+use klippa::{subset_font, verif_hooks as vh};
+use read_fonts::tables::cmap::{Cmap12, Cmap4, CmapSubtable, MapVariant};
+use read_fonts::types::{GlyphId, Tag};
+use read_fonts::{FontData, FontRead, FontRef, TableProvider};
+use skrifa::MetadataProvider;
+use std::collections::{BTreeMap, BTreeSet};
+use write_fonts::FontBuilder;
 
-pub fn run(_cfg: &Config, _s: &mut Session, _r: &mut Rng) {}
+const F_GLYPH_NAMES: u16 = 0x0080;
+
+thread_local! {
+    static RECORDED: std::cell::RefCell<BTreeMap<String, u32>> = Default::default();
+}
+
+/// `Session::oracle`, but at most 12 failures per oracle name are recorded (the session keeps 200 in all; one
+/// broken writer fails thousands of unit cases and would hide the font-level inputs)
+fn orc(s: &mut Session, name: &str, ok: bool, input: impl FnOnce() -> String, detail: impl FnOnce() -> String) {
+    if !ok {
+        let over = RECORDED.with(|m| {
+            let mut m = m.borrow_mut();
+            let c = m.entry(name.to_string()).or_insert(0);
+            *c += 1;
+            *c > 12
+        });
+        if over {
+            s.oracle_checks += 1;
+            s.count(&format!("repeat-failure-not-recorded:{name}"));
+            return;
+        }
+    }
+    s.oracle(name, ok, input, detail);
+}
+
+// ---------------------------------------------------------------------------------------------
+// run-structured mappings
+// ---------------------------------------------------------------------------------------------
+
+/// run lengths the format 4 heuristic distinguishes: < 4 never split off, 4..7 split off only at the end of a
+/// range (cost 8), >= 8 split off in the middle too (cost 16)
+const RUN_LENS: [usize; 12] = [1, 1, 2, 2, 3, 3, 4, 4, 5, 8, 9, 20];
+
+/// A contiguous block of `total` code points starting at `cp0` whose glyph ids form runs of the given lengths.
+/// `order`: 0 ascending run bases, 1 descending, 2 interleaved from two pools, 3 random pools.
+/// Glyph ids are taken from `gid0..`; returns the pairs and the next free gid.
+fn run_block(r: &mut Rng, cp0: u32, lens: &[usize], gid0: u32, order: u64) -> (Vec<(u32, u32)>, u32) {
+    let total: usize = lens.iter().sum();
+    // gid base of each run: runs occupy disjoint gid ranges, separated by a hole of 1 (so that adjacent runs never
+    // accidentally continue each other) unless `tight`
+    let tight = r.chance(1, 3);
+    let mut slots: Vec<usize> = (0..lens.len()).collect();
+    match order {
+        0 => {}
+        1 => slots.reverse(),
+        2 => {
+            // interleaved: even runs from the low pool, odd runs from the high pool
+            let (a, b): (Vec<usize>, Vec<usize>) = slots.iter().partition(|i| *i % 2 == 0);
+            slots = a.into_iter().chain(b).collect();
+        }
+        _ => r.shuffle(&mut slots),
+    }
+    // slots[k] = index of the run that gets the k-th gid range
+    let mut base = vec![0u32; lens.len()];
+    let mut g = gid0;
+    for run in slots {
+        base[run] = g;
+        g += lens[run] as u32 + if tight { 0 } else { 1 };
+    }
+    let mut out = Vec::with_capacity(total);
+    let mut cp = cp0;
+    for (i, l) in lens.iter().enumerate() {
+        for k in 0..*l {
+            out.push((cp, base[i] + k as u32));
+            cp += 1;
+        }
+    }
+    (out, g)
+}
+
+fn rand_lens(r: &mut Rng) -> Vec<usize> {
+    let shape = r.below(8);
+    let n = match shape {
+        0 => 1,
+        1 => 2,
+        _ => r.range(2, 7) as usize,
+    };
+    let mut lens: Vec<usize> = (0..n).map(|_| *r.pick(&RUN_LENS)).collect();
+    match shape {
+        // several short runs followed by a long one (a range split in front of its final run)
+        2 => {
+            let k = lens.len();
+            for l in lens.iter_mut().take(k - 1) {
+                *l = *r.pick(&[1usize, 2, 3]);
+            }
+            lens[k - 1] = *r.pick(&[4usize, 5, 8, 12, 30]);
+        }
+        // a long run first, then short ones
+        3 => {
+            lens[0] = *r.pick(&[4usize, 8, 9, 16]);
+        }
+        // long run in the middle
+        4 => {
+            let k = lens.len() / 2;
+            lens[k] = *r.pick(&[7usize, 8, 9, 40]);
+        }
+        _ => {}
+    }
+    lens
+}
+
+/// a strictly ascending (cp, gid) list made of run-structured blocks
+fn gen_list(r: &mut Rng, allow_supp: bool) -> Vec<(u32, u32)> {
+    let nblocks = r.range(1, 5) as usize;
+    let mut cp = match r.below(6) {
+        0 => 0,
+        1 => 1,
+        2 => 0x20,
+        3 => 0xF000 + r.below(0xE00) as u32,
+        _ => r.below(0x3000) as u32,
+    };
+    let mut gid = match r.below(5) {
+        0 => 1,
+        1 => cp + 1, // delta 0 runs: gid == cp
+        2 => 60000,
+        _ => 1 + r.below(3000) as u32,
+    };
+    if gid == 0 {
+        gid = 1;
+    }
+    let mut out = vec![];
+    for _ in 0..nblocks {
+        let lens = rand_lens(r);
+        let order = r.below(4);
+        let identity = r.chance(1, 12);
+        let (mut blk, g2) = run_block(r, cp, &lens, if identity { cp.max(1) } else { gid }, order);
+        if identity && cp == 0 {
+            blk[0].1 = 7;
+        }
+        gid = g2.max(gid) + r.below(3) as u32;
+        cp = blk.last().unwrap().0 + 1 + *r.pick(&[1u32, 1, 2, 3, 17, 300, 5000]);
+        out.extend(blk);
+    }
+    out.retain(|p| p.0 <= 0xFFFF);
+    // the end of the BMP: a block that ends exactly at U+FFFF / U+FFFE
+    if r.chance(1, 10) {
+        let lens = rand_lens(r);
+        let total: u32 = lens.iter().sum::<usize>() as u32;
+        let endcp = if r.chance(1, 2) { 0xFFFF } else { 0xFFFE };
+        let start = endcp + 1 - total;
+        if out.last().map_or(true, |p| p.0 + 1 < start) {
+            let order = r.below(4);
+            let (blk, g2) = run_block(r, start, &lens, gid, order);
+            gid = g2;
+            out.extend(blk);
+        }
+    }
+    if allow_supp && r.chance(1, 2) {
+        let mut cp = *r.pick(&[0x10000u32, 0x10001, 0x1F600, 0xE0100, 0x10FFF0]);
+        if out.last().map_or(false, |p| p.0 >= cp) {
+            return out;
+        }
+        for _ in 0..r.range(1, 3) {
+            let lens = rand_lens(r);
+            let total: u32 = lens.iter().sum::<usize>() as u32;
+            if cp + total > 0x10FFFF {
+                break;
+            }
+            let order = r.below(4);
+            let (blk, g2) = run_block(r, cp, &lens, gid, order);
+            gid = g2;
+            cp = blk.last().unwrap().0 + 1 + *r.pick(&[1u32, 2, 100]);
+            out.extend(blk);
+        }
+    }
+    out.retain(|p| p.1 <= 0xFFFF);
+    out
+}
+
+fn pairs_line(l: &[(u32, u32)]) -> String {
+    if l.is_empty() {
+        return "-".into();
+    }
+    l.iter().map(|(a, b)| format!("{a} {b}")).collect::<Vec<_>>().join(" ")
+}
+
+fn err_name(bits: u16) -> String {
+    match bits {
+        0x0001 => "err:other".into(),
+        0x0008 => "err:int-overflow".into(),
+        b => format!("err:flags-{b:#x}"),
+    }
+}
+
+fn probes(list: &[(u32, u32)], r: &mut Rng) -> Vec<u32> {
+    let listed: BTreeSet<u32> = list.iter().map(|p| p.0).collect();
+    let mut out = BTreeSet::new();
+    for (c, _) in list {
+        for d in [c.wrapping_sub(1), c + 1] {
+            if d <= 0x10FFFF && !listed.contains(&d) {
+                out.insert(d);
+            }
+        }
+    }
+    for c in [0u32, 1, 0xFFFE, 0xFFFF, 0x10000] {
+        if !listed.contains(&c) {
+            out.insert(c);
+        }
+    }
+    for _ in 0..4 {
+        let c = r.below(0x11000) as u32;
+        if !listed.contains(&c) {
+            out.insert(c);
+        }
+    }
+    out.into_iter().collect()
+}
+
+fn ilog2(n: usize) -> u32 {
+    usize::BITS - 1 - n.leading_zeros()
+}
+
+/// model independent check of one emitted format 4 subtable
+fn check_fmt4(s: &mut Session, bytes: &[u8], list: &[(u32, u32)], input: &str, r: &mut Rng) {
+    let Ok(t) = Cmap4::read(FontData::new(bytes)) else {
+        orc(s, "cmap4-unit-readable", false, || input.to_string(), || "Cmap4::read failed".into());
+        return;
+    };
+    let mut wrong = vec![];
+    for (c, g) in list.iter().filter(|p| p.0 <= 0xFFFF) {
+        let got = t.map_codepoint(*c).map(|g| g.to_u32());
+        let ok = got == Some(*g) || (*g == 0 && got.is_none());
+        if !ok && wrong.len() < 5 {
+            wrong.push(format!("U+{c:04X}: want {g} got {got:?}"));
+        }
+    }
+    orc(s, "cmap4-unit-lookup=list", wrong.is_empty(), || input.to_string(), || wrong.join("; "));
+    let mut extra = vec![];
+    for c in probes(list, r) {
+        let got = t.map_codepoint(c).map(|g| g.to_u32());
+        if !(got.is_none() || got == Some(0)) && extra.len() < 5 {
+            extra.push(format!("U+{c:04X} (not listed) -> {got:?}"));
+        }
+    }
+    orc(s, "cmap4-unit-unlisted-unmapped", extra.is_empty(), || input.to_string(), || extra.join("; "));
+    // header fields: segments ascending / disjoint, last end code 0xFFFF, search fields, length
+    let n = t.seg_count_x2() as usize / 2;
+    let ends: Vec<u32> = t.end_code().iter().map(|v| v.get() as u32).collect();
+    let starts: Vec<u32> = t.start_code().iter().map(|v| v.get() as u32).collect();
+    let mut shape = n >= 1 && ends.len() == n && starts.len() == n && ends.last() == Some(&0xFFFF);
+    for i in 0..n.min(ends.len()) {
+        shape &= starts[i] <= ends[i] && (i == 0 || ends[i - 1] < starts[i]);
+    }
+    let es = if n >= 1 { ilog2(n) } else { 0 };
+    let fields = n >= 1
+        && t.entry_selector() as u32 == es
+        && t.search_range() as usize == 2usize << es
+        && t.range_shift() as usize == 2 * n - (2usize << es)
+        && t.length() as usize == bytes.len();
+    orc(s, "cmap4-unit-segments-valid", shape, || input.to_string(), || format!("starts {starts:?} ends {ends:?}"));
+    orc(s, "cmap4-unit-search-fields", fields, || input.to_string(), || {
+        format!("segCount {n} searchRange {} entrySelector {} rangeShift {} length {} bytes {}", t.search_range(), t.entry_selector(), t.range_shift(), t.length(), bytes.len())
+    });
+    let arr = t.glyph_id_array().len();
+    s.count(&format!("cmap4-unit:segments={}", if n <= 2 { n.to_string() } else if n <= 5 { "3-5".into() } else { "6+".into() }));
+    s.count(if arr == 0 { "cmap4-unit:glyphIdArray=empty" } else { "cmap4-unit:glyphIdArray=used" });
+    let narr = t.id_range_offsets().iter().filter(|o| o.get() != 0).count();
+    s.count(&format!("cmap4-unit:array-segments={}", narr.min(3)));
+}
+
+fn check_fmt12(s: &mut Session, bytes: &[u8], list: &[(u32, u32)], input: &str, r: &mut Rng) {
+    let Ok(t) = Cmap12::read(FontData::new(bytes)) else {
+        orc(s, "cmap12-unit-readable", false, || input.to_string(), || "Cmap12::read failed".into());
+        return;
+    };
+    let mut wrong = vec![];
+    for (c, g) in list {
+        let got = t.map_codepoint(*c).map(|g| g.to_u32());
+        if got != Some(*g) && wrong.len() < 5 {
+            wrong.push(format!("U+{c:04X}: want {g} got {got:?}"));
+        }
+    }
+    orc(s, "cmap12-unit-lookup=list", wrong.is_empty(), || input.to_string(), || wrong.join("; "));
+    let mut extra = vec![];
+    for c in probes(list, r) {
+        let got = t.map_codepoint(c).map(|g| g.to_u32());
+        if got.is_some() && extra.len() < 5 {
+            extra.push(format!("U+{c:04X} (not listed) -> {got:?}"));
+        }
+    }
+    orc(s, "cmap12-unit-unlisted-unmapped", extra.is_empty(), || input.to_string(), || extra.join("; "));
+    let groups = t.groups();
+    let mut shape = t.length() as usize == bytes.len() && t.num_groups() as usize == groups.len();
+    for (i, g) in groups.iter().enumerate() {
+        shape &= g.start_char_code() <= g.end_char_code() && (i == 0 || groups[i - 1].end_char_code() < g.start_char_code());
+    }
+    orc(s, "cmap12-unit-groups-valid", shape, || input.to_string(), || format!("{} groups, length {}", groups.len(), t.length()));
+    s.count(&format!("cmap12-unit:groups={}", groups.len().min(6)));
+}
+
+fn unit_lists(cfg: &Config, s: &mut Session, r: &mut Rng) {
+    let n = if cfg.thorough() { 60_000 } else { 2_500 };
+    let mut fixed: Vec<Vec<(u32, u32)>> = vec![
+        vec![],
+        vec![(0x41, 1)],
+        vec![(0xFFFF, 3)],
+        vec![(0xFFFE, 3), (0xFFFF, 4)],
+        vec![(0, 5), (1, 6)],
+        // the seeded-defect shape: two short runs then a long one in one contiguous block
+        vec![(336, 15), (337, 16), (338, 7), (339, 8), (340, 17), (341, 18), (342, 9), (343, 10), (344, 11), (345, 12), (346, 13)],
+        // glyph id wraps past 0xFFFF relative to the code point (negative idDelta)
+        vec![(0xF000, 1), (0xF001, 2), (0xF002, 3), (0xF003, 4)],
+        // duplicated glyphs
+        vec![(0x30, 9), (0x31, 9), (0x32, 9), (0x33, 10), (0x34, 11), (0x35, 12), (0x36, 13)],
+    ];
+    // long runs around the u16 cost arithmetic are out of reach of a plan (needs > 32767 glyphs): one case each side
+    fixed.push((0..300u32).map(|i| (0x100 + i, 1 + i)).collect());
+    for i in 0..n {
+        let list = if i < fixed.len() { fixed[i].clone() } else { gen_list(r, false) };
+        let lang = if r.chance(1, 8) { r.below(4) as u16 } else { 0 };
+        let input = format!("cmap4 lang={lang} list=[{}]", pairs_line(&list));
+        let resp = match catch(|| vh::serialize_cmap4(lang, &list)) {
+            Err(_) => "trap".to_string(),
+            Ok(Err(bits)) => err_name(bits),
+            Ok(Ok(bytes)) => {
+                if !bytes.is_empty() {
+                    check_fmt4(s, &bytes, &list, &input, r);
+                }
+                format!("ok {}", hex(&bytes))
+            }
+        };
+        s.count(&format!("cmap4-unit:outcome={}", resp.split(' ').next().unwrap_or("")));
+        s.case("cmap4", format!("c17.cmap4 {lang} {}", pairs_line(&list)), resp);
+    }
+    for i in 0..n / 2 {
+        let list = if i < fixed.len() { fixed[i].clone() } else { gen_list(r, true) };
+        let lang = if r.chance(1, 8) { r.below(4) as u32 } else { 0 };
+        let input = format!("cmap12 lang={lang} list=[{}]", pairs_line(&list));
+        let resp = match catch(|| vh::serialize_cmap12(lang, &list)) {
+            Err(_) => "trap".to_string(),
+            Ok(Err(bits)) => err_name(bits),
+            Ok(Ok(bytes)) => {
+                check_fmt12(s, &bytes, &list, &input, r);
+                format!("ok {}", hex(&bytes))
+            }
+        };
+        s.case("cmap12", format!("c17.cmap12 {lang} {}", pairs_line(&list)), resp);
+    }
+    // lists no plan produces (unsorted, repeated code points, code points above the BMP given to format 4, gid 0,
+    // gid > 0xFFFF): correspondence only
+    for _ in 0..n / 5 {
+        let mut list = gen_list(r, true);
+        match r.below(5) {
+            0 => r.shuffle(&mut list),
+            1 => {
+                if let Some(p) = list.first().copied() {
+                    list.push(p);
+                    list.push((p.0, p.1 + 1));
+                }
+            }
+            2 => {
+                for p in list.iter_mut() {
+                    if r.chance(1, 6) {
+                        p.1 = 0;
+                    }
+                }
+            }
+            3 => {
+                for p in list.iter_mut() {
+                    if r.chance(1, 6) {
+                        p.1 += 0x10000;
+                    }
+                }
+            }
+            _ => {
+                // a hole in the middle of a block
+                if list.len() > 3 {
+                    let k = r.below(list.len() as u64) as usize;
+                    list.remove(k);
+                }
+            }
+        }
+        let r4 = match catch(|| vh::serialize_cmap4(0, &list)) {
+            Err(_) => "trap".to_string(),
+            Ok(Err(bits)) => err_name(bits),
+            Ok(Ok(bytes)) => format!("ok {}", hex(&bytes)),
+        };
+        s.count(&format!("cmap4-unit:hostile-outcome={}", r4.split(' ').next().unwrap_or("")));
+        s.case("cmap4", format!("c17.cmap4 0 {}", pairs_line(&list)), r4);
+        let r12 = match catch(|| vh::serialize_cmap12(0, &list)) {
+            Err(_) => "trap".to_string(),
+            Ok(Err(bits)) => err_name(bits),
+            Ok(Ok(bytes)) => format!("ok {}", hex(&bytes)),
+        };
+        s.case("cmap12", format!("c17.cmap12 0 {}", pairs_line(&list)), r12);
+    }
+}
+
+// ---------------------------------------------------------------------------------------------
+// whole fonts
+// ---------------------------------------------------------------------------------------------
+
+fn tiny_glyph(seed: u32) -> Vec<u8> {
+    // one contour, 3 points: 1 contour, bbox, endPts [2], 0 instructions, flags, x/y deltas as bytes
+    let mut g = vec![0u8, 1, 0, 0, 0, 0, 0, 100, 0, 100, 0, 2, 0, 0];
+    g.extend_from_slice(&[0x37, 0x37, 0x37]); // on-curve, x short positive, y short positive
+    g.extend_from_slice(&[(seed % 50) as u8 + 1, 40, 10]);
+    g.extend_from_slice(&[5, (seed % 30) as u8 + 1, 20]);
+    g
+}
+
+/// replace the cmap table of a font
+fn with_cmap(font: &[u8], cmap: Vec<u8>) -> Vec<u8> {
+    let f = FontRef::new(font).expect("font");
+    let mut b = FontBuilder::new();
+    for rec in f.table_directory.table_records() {
+        let tag = rec.tag();
+        if tag == Tag::new(b"cmap") {
+            continue;
+        }
+        if let Some(d) = f.table_data(tag) {
+            b.add_raw(tag, d.as_bytes().to_vec());
+        }
+    }
+    b.add_raw(Tag::new(b"cmap"), cmap);
+    b.build()
+}
+
+struct BlockFont {
+    label: String,
+    data: Vec<u8>,
+    /// the blocks (first cp, length) the font maps
+    blocks: Vec<(u32, u32)>,
+}
+
+/// a font with `mapping` (cp -> old gid) over `n` tiny glyphs
+fn font_from_mapping(label: &str, n: usize, mapping: &[(u32, u32)]) -> Vec<u8> {
+    let sf = Syn {
+        name: label.to_string(),
+        glyphs: (0..n).map(|i| if i % 7 == 3 { vec![] } else { tiny_glyph(i as u32) }).collect(),
+        adv: (0..n).map(|i| 400 + (i % 13) as u16).collect(),
+        lsb: (0..n).map(|i| (i % 5) as i16).collect(),
+        num_long: n,
+        cmap: mapping.to_vec(),
+        long_loca: false,
+        align: 2,
+    };
+    build_font(&sf)
+}
+
+fn gen_block_font(r: &mut Rng, id: usize) -> BlockFont {
+    let mut mapping: Vec<(u32, u32)> = vec![];
+    let mut blocks = vec![];
+    let mut cp = *r.pick(&[0x20u32, 0x41, 0x100, 0x400, 0x2000]);
+    let mut gid = 1u32;
+    let nblocks = r.range(2, 6);
+    let supp = id % 3 == 1;
+    for b in 0..nblocks {
+        // a block = 1..4 run groups, contiguous in code point space
+        let mut lens = vec![];
+        for _ in 0..r.range(1, 4) {
+            lens.extend(rand_lens(r));
+        }
+        let order = r.below(4);
+        let (blk, g2) = run_block(r, cp, &lens, gid, order);
+        gid = g2 + r.below(2) as u32;
+        blocks.push((cp, blk.len() as u32));
+        cp = blk.last().unwrap().0 + 1 + *r.pick(&[1u32, 2, 9, 200]);
+        if supp && b == nblocks - 2 {
+            cp = 0x1F600;
+        }
+        mapping.extend(blk);
+    }
+    let n = gid as usize + 2;
+    let label = format!("syn:cmapblocks#{id}");
+    BlockFont { data: font_from_mapping(&label, n, &mapping), label, blocks }
+}
+
+/// a request made of contiguous unicode blocks
+fn block_request(r: &mut Rng, blocks: &[(u32, u32)], all_cps: &[u32], flags: u16) -> Req {
+    let mut unicodes = BTreeSet::new();
+    let k = r.range(1, 3);
+    for _ in 0..k {
+        let (b0, blen) = *r.pick(blocks);
+        let len = match r.below(5) {
+            0 => blen as i64,
+            1 => r.range(2, 200),
+            _ => r.range(2, (blen as i64).max(3)),
+        };
+        // start somewhere inside (or just before) the block
+        let off = r.range(-1, (blen as i64 - 2).max(0));
+        let start = (b0 as i64 + off).max(0) as u32;
+        for c in start..start + len as u32 {
+            unicodes.insert(c);
+        }
+    }
+    if r.chance(1, 4) && !all_cps.is_empty() {
+        unicodes.insert(*r.pick(all_cps));
+    }
+    let gids = if r.chance(1, 6) { vec![1 + r.below(5) as u32] } else { vec![] };
+    Req { gids, unicodes: unicodes.into_iter().collect(), flags }
+}
+
+fn block_flags(r: &mut Rng) -> u16 {
+    let mut f = 0;
+    if r.chance(1, 2) {
+        f |= F_RETAIN_GIDS;
+    }
+    if r.chance(1, 2) {
+        f |= F_NOTDEF_OUTLINE;
+    }
+    if r.chance(1, 4) {
+        f |= F_GLYPH_NAMES;
+    }
+    if r.chance(1, 6) {
+        f |= F_NO_HINTING;
+    }
+    f
+}
+
+/// Every retained Unicode subtable of the subset and skrifa's Charmap against the original, through the glyph map.
+fn cmap_oracles(s: &mut Session, label: &str, data: &[u8], req: &Req, r: &mut Rng) {
+    let input = format!(
+        "font={} flags={:#06x} gids=[{}] unicodes=[{}] (cmap-blocks)",
+        label,
+        req.flags,
+        join(&req.gids),
+        req.unicodes.iter().map(|u| format!("{u:x}")).collect::<Vec<_>>().join(" ")
+    );
+    let Ok(font) = FontRef::new(data) else { return };
+    let plan = match catch(|| make_plan(&font, req)) {
+        Ok(p) => p,
+        Err(e) => {
+            orc(s, "plan-no-panic", false, || input.clone(), || e.clone());
+            return;
+        }
+    };
+    let view = vh::plan_view(&plan);
+    let gmap: BTreeMap<u32, u32> = view.glyph_map.iter().copied().collect();
+    let out = match catch(|| subset_font(&font, &plan)) {
+        Ok(Ok(o)) => o,
+        Ok(Err(e)) => {
+            orc(s, "subset-returns-ok", false, || input.clone(), || format!("{e:?}"));
+            return;
+        }
+        Err(e) => {
+            orc(s, "subset-no-panic", false, || input.clone(), || e.clone());
+            return;
+        }
+    };
+    let Ok(sub) = FontRef::new(&out) else {
+        orc(s, "subset-reopens", false, || input.clone(), || "FontRef::new failed".into());
+        return;
+    };
+    let (Ok(ocmap), Ok(scmap)) = (font.cmap(), sub.cmap()) else {
+        s.count("cmap-blocks:no-cmap-in-subset");
+        return;
+    };
+    let uniset: BTreeSet<u32> = req.unicodes.iter().copied().collect();
+    let gidset: BTreeSet<u32> = req.gids.iter().copied().collect();
+    let ocm = font.charmap();
+    let num = view.font_num_glyphs as u32;
+    // code points to examine: requested ones, their neighbours, and everything the original maps (bounded)
+    let mut cps: BTreeSet<u32> = BTreeSet::new();
+    for c in &req.unicodes {
+        cps.insert(*c);
+        cps.insert(c.wrapping_sub(1).min(0x10FFFF));
+        cps.insert((c + 1).min(0x10FFFF));
+    }
+    let mut all: Vec<u32> = ocm.mappings().map(|(c, _)| c).collect();
+    all.sort();
+    if all.len() > 1500 {
+        // a deterministic sample plus the neighbourhood of the request
+        let step = all.len() / 700 + 1;
+        let off = r.below(step as u64) as usize;
+        all = all.into_iter().skip(off).step_by(step).collect();
+    }
+    cps.extend(all);
+    cps.extend([0u32, 0xFFFE, 0xFFFF, 0x10000]);
+    // what is wanted: cp requested, or its glyph requested
+    let wanted = |c: u32, old: u32| (uniset.contains(&c) || gidset.contains(&old)) && old < num;
+
+    // 1. skrifa Charmap
+    let scm = sub.charmap();
+    let mut wrong = vec![];
+    for c in &cps {
+        let old = ocm.map(*c).map(|g| g.to_u32());
+        let got = scm.map(*c).map(|g| g.to_u32());
+        let want = match old {
+            Some(o) if wanted(*c, o) => gmap.get(&o).copied(),
+            _ => None,
+        };
+        if got != want && wrong.len() < 6 {
+            wrong.push(format!("U+{c:04X}: original gid {old:?} want {want:?} got {got:?}"));
+        }
+    }
+    orc(s, "cmap-blocks:charmap=original-through-glyph-map", wrong.is_empty(), || input.clone(), || wrong.join("; "));
+
+    // 2. every retained Unicode / Windows subtable against the original subtable of the same (platform, encoding)
+    let mut nsub = 0;
+    for rec in scmap.encoding_records() {
+        let key = (rec.platform_id(), rec.encoding_id());
+        let Ok(st) = rec.subtable(scmap.offset_data()) else {
+            orc(s, "cmap-blocks:subtable-readable", false, || input.clone(), || format!("record {key:?}"));
+            continue;
+        };
+        let Some(orec) = ocmap.encoding_records().iter().find(|o| (o.platform_id(), o.encoding_id()) == key) else {
+            orc(s, "cmap-blocks:record-from-original", false, || input.clone(), || format!("record {key:?} not in the original"));
+            continue;
+        };
+        let Ok(ost) = orec.subtable(ocmap.offset_data()) else { continue };
+        let lookup = |t: &CmapSubtable, c: u32| -> Option<u32> {
+            match t {
+                CmapSubtable::Format4(t) => t.map_codepoint(c).map(|g| g.to_u32()),
+                CmapSubtable::Format12(t) => t.map_codepoint(c).map(|g| g.to_u32()),
+                _ => None,
+            }
+        };
+        if !matches!(st, CmapSubtable::Format4(_) | CmapSubtable::Format12(_)) {
+            continue;
+        }
+        nsub += 1;
+        let fmt = st.format();
+        s.count(&format!("cmap-blocks:subtable-format={fmt}"));
+        if let CmapSubtable::Format4(t) = &st {
+            let n = t.seg_count_x2() / 2;
+            s.count(&format!("cmap-blocks:fmt4-segments={}", if n <= 2 { n.to_string() } else if n <= 6 { "3-6".into() } else { "7+".into() }));
+            s.count(if t.glyph_id_array().is_empty() { "cmap-blocks:fmt4-glyphIdArray=empty" } else { "cmap-blocks:fmt4-glyphIdArray=used" });
+        }
+        let mut wrong = vec![];
+        for c in &cps {
+            let old = lookup(&ost, *c).filter(|g| *g != 0);
+            let got = lookup(&st, *c).filter(|g| *g != 0);
+            // the glyph must also be wanted by the request, through the font's chosen character map
+            let want = match old {
+                Some(o) if wanted(*c, o) && ocm.map(*c).is_some() => gmap.get(&o).copied().filter(|g| *g != 0),
+                _ => None,
+            };
+            if got != want && wrong.len() < 6 {
+                wrong.push(format!("record {key:?} format {fmt} U+{c:04X}: original gid {old:?} want {want:?} got {got:?}"));
+            }
+        }
+        orc(s, "cmap-blocks:subtable=original-through-glyph-map", wrong.is_empty(), || input.clone(), || wrong.join("; "));
+    }
+    s.count(&format!("cmap-blocks:unicode-subtables={nsub}"));
+
+    // 3. variation sequences
+    fn find14<'a>(cm: &read_fonts::tables::cmap::Cmap<'a>) -> Option<read_fonts::tables::cmap::Cmap14<'a>> {
+        cm.encoding_records().iter().find_map(|rec| match rec.subtable(cm.offset_data()) {
+            Ok(CmapSubtable::Format14(t)) => Some(t),
+            _ => None,
+        })
+    }
+    if let Some(o14) = find14(&ocmap) {
+        let s14 = find14(&scmap);
+        let mut wrong = vec![];
+        let mut kept = 0;
+        let mut seen: BTreeSet<(u32, u32)> = BTreeSet::new();
+        for (c, sel, mv) in o14.iter() {
+            if !seen.insert((c, sel)) {
+                continue;
+            }
+            // `map_variant` is the observation on both sides (a default range shadows a non-default mapping)
+            let Some(mv) = o14.map_variant(c, sel) else { continue };
+            let _ = mv;
+            let sel_kept = uniset.contains(&sel);
+            let want = match o14.map_variant(c, sel) {
+                Some(MapVariant::UseDefault) if sel_kept && uniset.contains(&c) && ocm.map(c).is_some() => Some(MapVariant::UseDefault),
+                Some(MapVariant::Variant(g)) if sel_kept && (uniset.contains(&c) || gidset.contains(&g.to_u32())) => {
+                    gmap.get(&g.to_u32()).map(|n| MapVariant::Variant(GlyphId::new(*n)))
+                }
+                _ => None,
+            };
+            let got = s14.as_ref().and_then(|t| t.map_variant(c, sel));
+            if want.is_some() {
+                kept += 1;
+            }
+            if got != want && wrong.len() < 6 {
+                wrong.push(format!("U+{c:04X} VS U+{sel:04X}: original {:?} want {want:?} got {got:?}", o14.map_variant(c, sel)));
+            }
+        }
+        if let Some(t) = &s14 {
+            for (c, sel, mv) in t.iter() {
+                let orig = o14.map_variant(c, sel);
+                let ok = match (mv, orig) {
+                    (MapVariant::UseDefault, Some(_)) => true,
+                    (MapVariant::Variant(n), Some(MapVariant::Variant(g))) => gmap.get(&g.to_u32()) == Some(&n.to_u32()),
+                    // shadowed by a default range in the original
+                    (MapVariant::Variant(_), Some(MapVariant::UseDefault)) => true,
+                    _ => false,
+                };
+                if !ok && wrong.len() < 6 {
+                    wrong.push(format!("subset has U+{c:04X} VS U+{sel:04X} -> {mv:?}, original {orig:?}"));
+                }
+            }
+        }
+        s.count(if kept > 0 { "cmap-blocks:uvs-kept>0" } else { "cmap-blocks:uvs-kept=0" });
+        orc(s, "cmap-blocks:variation-sequences=original-restricted", wrong.is_empty(), || input.clone(), || wrong.join("; "));
+    }
+}
+
+fn block_fonts(cfg: &Config, s: &mut Session, r: &mut Rng) {
+    let nfonts = if cfg.thorough() { 600 } else { 40 };
+    let nreq = if cfg.thorough() { 30 } else { 10 };
+    for id in 0..nfonts {
+        let bf = gen_block_font(r, id);
+        let Ok(font) = FontRef::new(&bf.data) else { continue };
+        let all: Vec<u32> = font.charmap().mappings().map(|(c, _)| c).collect();
+        for _ in 0..nreq {
+            let flags = block_flags(r);
+            let req = block_request(r, &bf.blocks, &all, flags);
+            cmap_oracles(s, &bf.label, &bf.data, &req, r);
+        }
+        // the whole of each block, with and without retain-gids
+        for flags in [0u16, F_RETAIN_GIDS, F_NOTDEF_OUTLINE | F_GLYPH_NAMES] {
+            let (b0, bl) = *r.pick(&bf.blocks);
+            let req = Req { gids: vec![], unicodes: (b0..b0 + bl).collect(), flags };
+            cmap_oracles(s, &bf.label, &bf.data, &req, r);
+        }
+    }
+}
+
+/// maximal runs of consecutive mapped code points of a font
+fn mapped_blocks(font: &FontRef) -> Vec<(u32, u32)> {
+    let mut cps: Vec<u32> = font.charmap().mappings().map(|(c, _)| c).collect();
+    cps.sort();
+    cps.dedup();
+    let mut out: Vec<(u32, u32)> = vec![];
+    for c in cps {
+        match out.last_mut() {
+            Some((b, l)) if *b + *l == c => *l += 1,
+            _ => out.push((c, 1)),
+        }
+    }
+    out
+}
+
+fn corpus_blocks(cfg: &Config, s: &mut Session, r: &mut Rng) {
+    let mut files: Vec<std::path::PathBuf> = vec![];
+    for dir in ["/repo/font-test-data/test_data/ttf", "/repo/klippa/test-data/fonts"] {
+        let mut v: Vec<_> = std::fs::read_dir(dir).map(|d| d.filter_map(|e| e.ok()).map(|e| e.path()).collect()).unwrap_or_default();
+        v.sort();
+        files.extend(v);
+    }
+    for p in files {
+        let ext = p.extension().and_then(|e| e.to_str()).unwrap_or("");
+        if ext != "ttf" {
+            continue;
+        }
+        let Ok(data) = std::fs::read(&p) else { continue };
+        let Ok(font) = FontRef::new(&data) else { continue };
+        if font.glyf().is_err() || font.cmap().is_err() || font.loca(None).is_err() {
+            continue;
+        }
+        let dirname = if p.starts_with("/repo/klippa") { "klippa" } else { "corpus" };
+        let label = format!("{dirname}:{}", p.file_name().unwrap().to_string_lossy());
+        let blocks = mapped_blocks(&font);
+        if blocks.is_empty() {
+            continue;
+        }
+        // prefer the longer blocks: that is where ranges get split
+        let mut long_blocks: Vec<(u32, u32)> = blocks.iter().copied().filter(|b| b.1 >= 4).collect();
+        if long_blocks.is_empty() {
+            long_blocks = blocks.clone();
+        }
+        let all: Vec<u32> = font.charmap().mappings().map(|(c, _)| c).collect();
+        let big = all.len() > 800;
+        let nreq = if cfg.thorough() { if big { 120 } else { 25 } } else if big { 14 } else { 3 };
+        s.count(if big { "cmap-blocks:corpus-font=big" } else { "cmap-blocks:corpus-font=small" });
+        for _ in 0..nreq {
+            let flags = block_flags(r);
+            let req = block_request(r, &long_blocks, &all, flags);
+            cmap_oracles(s, &label, &data, &req, r);
+        }
+    }
+}
+
+pub fn run(cfg: &Config, s: &mut Session, r: &mut Rng) {
+    unit_lists(cfg, s, r);
+    block_fonts(cfg, s, r);
+    corpus_blocks(cfg, s, r);
+}
